@@ -38,7 +38,7 @@ SeqsOver(S, m) == UNION {[1..j -> S] : j \in 0..m}
 Levels(s) == IF OnlyNoMax THEN {NoMax}
              ELSE (0..(Height(Ch, s) + 2)) \cup {NoMax} \cup (IF NegLevel THEN {-1} ELSE {})
 Bounds == {NoBound} \cup (0..(k + 1))
-AttrVals == {"absent", "v1", "v2"}
+AttrVals == {"absent", "v1", "none"}     \* "none": the attribute exists and is None
 
 \* (every variable is assigned before the recursive predicate: TLC overflows its stack otherwise)
 Init == /\ k \in 1..MaxN
@@ -62,10 +62,10 @@ QFindAll == "findall" \in Queries /\ \E s \in Nodes: \E st \in SubsetsUpTo(Sub(s
 QFind == "find" \in Queries /\ \E s \in Nodes: \E st \in SubsetsUpTo(Sub(s), 1), hide \in SUBSET Sub(s), ml \in {NoMax, 0, 1, 2}:
           zlast' = [q |-> "find", s |-> s, st |-> st, fl |-> Nodes \ hide, ml |-> ml,
                     res |-> Find(Par, Ch, s, Nodes \ hide, st, ml)]
-QByAttr == "byattr" \in Queries /\ \E s \in Nodes: \E attr \in [Nodes -> AttrVals], ml \in {NoMax, 1, 2}, minc \in {NoBound, 0, 1, 2}, maxc \in {NoBound, 0, 1, 2}:
-          zlast' = [q |-> "byattr", s |-> s, attr |-> attr, value |-> "v1", ml |-> ml, minc |-> minc, maxc |-> maxc,
-                    all |-> FindAll(Par, Ch, s, ByAttr(attr, "v1"), {}, ml, minc, maxc),
-                    one |-> Find(Par, Ch, s, ByAttr(attr, "v1"), {}, ml)]
+QByAttr == "byattr" \in Queries /\ \E s \in Nodes: \E attr \in [Nodes -> AttrVals], value \in {"v1", "none"}, ml \in {NoMax, 1, 2}, minc \in {NoBound, 0, 1, 2}, maxc \in {NoBound, 0, 1, 2}:
+          zlast' = [q |-> "byattr", s |-> s, attr |-> attr, value |-> value, ml |-> ml, minc |-> minc, maxc |-> maxc,
+                    all |-> FindAll(Par, Ch, s, ByAttr(attr, value), {}, ml, minc, maxc),
+                    one |-> Find(Par, Ch, s, ByAttr(attr, value), {}, ml)]
 
 Next == UNCHANGED <<k, p>> /\ (QNav \/ QCommon \/ QIters \/ QWalk \/ QFindAll \/ QFind \/ QByAttr)
 
